@@ -73,7 +73,8 @@ def primary_cases():
         lab = dict(prev=1, hop=1, age=None, unk=False, crc=1, numbering='dense', ts0=False, mtu=None, hold=0)
         lab.update(label)
         return (lab, bundle)
-    for (life, dest, src, rpt, seq) in itertools.product(UINTS, ('dtn://far/app', 'ipn:5.6', 'dtn://far/a?b#c'), ('dtn://src/', 'ipn:7.1'),
+    for (life, dest, src, rpt, seq) in itertools.product(UINTS, ('dtn://far/app', 'ipn:5.6', 'dtn://far/a?b#c', 'ipn:977000.3.7', 'dtn://FarNode/App'),
+                                                         ('dtn://src/', 'ipn:7.1', 'ipn:977000.5.1'),
                                                          ('dtn://rpt/', 'dtn:none', 'ipn:8.0'), (0, 2 ** 32)):
         yield mk(dict(primary='life=%d dest=%s src=%s rpt=%s seq=%d' % (life, dest, src, rpt, seq)),
                  lifetime=life, dest=dest, src=src, report_to=rpt, ts=(700000000000, seq))
@@ -248,6 +249,18 @@ def run_history(params, known):
                 if key not in kinds:
                     kinds.add(key)
                     violations.append(v)
+        if (i + j) % 3 == 0:
+            # the node's clock is set back by 30 s, then a third bundle is forwarded: its age is
+            # what the clock says now, not what an earlier reading said
+            world.clock.now_us -= 30 * 10 ** 6
+            (label, bundle) = menu[i]
+            bundle = dict(primary=dict(bundle['primary'], ts=(bundle['primary']['ts'][0], 12)), blocks=bundle['blocks'])
+            found = check_case(dict(label, position=2, clock_set_back=True), bundle, None, world=world)
+            for v in found:
+                key = (v['kind'], tuple(sorted(v['signature'].items())))
+                if key not in kinds:
+                    kinds.add(key)
+                    violations.append(v)
         keys.add('%d,%d' % (i, j))
     return dict(name=params['name'], evaluations=count, nontrivial_keys=['hist ' + k for k in sorted(keys)],
                 violations=violations, known=[], samples=[dict(pairs_over_menu_of=len(menu))])
@@ -263,6 +276,7 @@ def scenarios(tier):
 
 ASSUMPTIONS = [
     'received bundles carry 0-2 previous-node, 0-2 hop-count, 0-1 age and 0-1 unknown extension blocks',
+    'in a third of the two-bundle histories the clock is then set back by 30 s and a third bundle forwarded',
     'the bundle is held 0 or 250 ms (virtual clock) between reception and the idle callback that forwards it; age tolerance 1 ms',
     'primary-block sweep on a fixed block layout: lifetime at every CBOR head-width boundary x three destination / two source / three report-to forms x two sequence numbers; every subset of seven non-structural flags, with and without fragment fields',
     'a bundle whose creation time is zero carries an age block (RFC 9171 4.4.2)',
